@@ -468,11 +468,11 @@ func queryFace(face *font.Face, ld *ot.Loader, r *runner) {
 				feats = append(feats, harfbuzz.Feature{Tag: layout.Features[fi].Tag, Value: uint32(1 + fi%2), Start: harfbuzz.FeatureGlobalStart, End: harfbuzz.FeatureGlobalEnd})
 			}
 			feats = append(feats, harfbuzz.Feature{Tag: ot.MustNewTag("kern"), Value: 0, Start: 1, End: 3})
-			for _, si := range pick(ns, []int{0, 1, 2, ns / 2, ns - 2, ns - 1}) {
+			for _, si := range pick(ns, []int{0, 1, ns / 2, ns - 1}) {
 				sc := layout.Scripts[si]
 				nl := len(sc.LangSysRecords)
 				langs := []ot.Tag{ot.MustNewTag("dflt")}
-				for _, li := range pick(nl, []int{0, 1, nl / 2, nl - 1}) {
+				for _, li := range pick(nl, []int{0, nl / 2, nl - 1}) {
 					langs = append(langs, sc.LangSysRecords[li].Tag)
 				}
 				for k, lt := range langs {
